@@ -30,6 +30,7 @@ def thresholds(tier):
   if tier == "thorough":
     t = {k: v * 15 for k, v in t.items()}
     t["big_designs"] = 1                      # one per run (shard 0)
+    t["openloop_designs"] = 400               # 30 per shard
   return t
 
 
